@@ -508,3 +508,149 @@ def model_cfg(invariants, emit=False, smax=128):
 
 LEMMAS = ["TypeOK", "DiscriminantDecides", "ClassesAgree", "SmallProductSolvable", "DiscriminantLowerBound",
           "DocumentedRootAccepted", "OtherRootNotPhysical", "GridRootImpliesSolvable", "QuarterTurnInvariant"]
+
+
+# ---------------------------------------------------------------- solver level (in situ): C02 on the updates of real runs
+
+
+def _site_obs(psi_n, mu_n, eps, gamma, u, dt, action, p, s, refused):
+    """per-site observations (kind 'insitu') of one answered update / one attempt, from the DOCUMENTED z, w of its inputs"""
+    ev = []
+    worst = 0.0
+    for i in range(len(psi_n)):
+        zd, wd, M = documented_zw(psi_n[i], mu_n[i], eps[i], gamma, u, dt, complex(action[i]))
+        c = zd.re * wd.re + zd.im * wd.im
+        Nq = 2 * c + 1
+        D = Nq * Nq - 4 * zd.abs2() * wd.abs2()
+        ratio = float(D / (Nq * Nq)) if Nq != 0 else -1.0
+        determined = abs(ratio) >= 1e-9
+        if refused:
+            dpos = bool(Nq > 0 and D >= 0 and determined)          # undetermined sites may explain a refusal
+        else:
+            dpos = bool(not ((Nq <= 0 or D < 0) and determined))    # undetermined sites may be answered
+        o = dict(kind="insitu", zr=0, zi=0, wr=0, wi=0, e1=0, e2=0, br=True, fin=True, sq=0, dpos=dpos)
+        if not refused:
+            ob = abstract_site(zd, wd, M, p[i], s[i])
+            o.update(ob)
+            worst = max(worst, ob["e1"], ob["e2"])
+        ev.append(o)
+    return ev, worst
+
+
+def insitu_run(tdgl, a, tmp):
+    """A real run (or history of runs on one solver object) observed through run-time wrappers on TDGLSolver.update and
+    TDGLSolver.solve_for_psi_squared (arguments and results untouched).  Per update call one trace at UPDATE level (psi^n, mu^n
+    handed to update; dt and psi' returned; epsilon, gamma, u, covariant Laplacian in force) and one trace per refused attempt and
+    for the last answered attempt at ATTEMPT level (the arguments of that call)."""
+    import os
+    import shutil
+    import tempfile
+
+    from tdgl.solver.solver import TDGLSolver
+    from . import devices
+
+    work = tempfile.mkdtemp(prefix="insitu", dir=tmp)
+    dev = devices.make(tdgl, a.get("dev", "bar"), mel=a.get("mel", 0.8), gamma=a.get("gamma", 10.0))
+    orig_update, orig_sps = TDGLSolver.update, TDGLSolver.solve_for_psi_squared
+    attempts = []
+    records = []
+    phase = {"label": "first"}
+
+    def w_sps(*args, **kw):
+        res = orig_sps(*args, **kw)
+        psi = np.array(kw["psi"])
+        rec = dict(psi=psi, mu=np.array(kw["mu"], dtype=float) * np.ones(len(psi)), eps=np.array(kw["epsilon"], dtype=float) * np.ones(len(psi)),
+                   gamma=float(kw["gamma"]), u=float(kw["u"]), dt=float(kw["dt"]), action=np.array(kw["psi_laplacian"] @ psi),
+                   res=None if res is None else (np.array(res[0]), np.array(res[1])))
+        attempts.append(rec)
+        return res
+
+    def w_update(self, state, running_state, dt, **kw):
+        psi_n, mu_n = np.array(kw["psi"]), np.array(kw["mu"])
+        attempts.clear()
+        res = orig_update(self, state, running_state, dt, **kw)
+        last = [r for r in attempts if r["res"] is not None][-1]
+        records.append(dict(phase=phase["label"], step=int(state["step"]), time=float(state["time"]), psi_n=psi_n, mu_n=mu_n,
+                            eps=np.array(self.epsilon, dtype=float) * np.ones(len(psi_n)), gamma=float(self.gamma), u=float(self.u), dt=float(res.dt),
+                            action=np.array(self.operators.psi_laplacian @ psi_n), p=np.array(res.psi), s=last["res"][1],
+                            n_attempts=len(attempts), refused=[r for r in attempts if r["res"] is None], last=last,
+                            first=[r for r in attempts if r["res"] is not None][0],
+                            iterations=sum(1 for r in attempts if r["res"] is not None)))
+        return res
+
+    TDGLSolver.update = w_update
+    TDGLSolver.solve_for_psi_squared = staticmethod(w_sps)
+    try:
+        def opts(out, solve_time):
+            return tdgl.SolverOptions(solve_time=solve_time, skip_time=a.get("skip_time", 0.0), dt_init=a.get("dt", 2.0 ** -6), dt_max=a.get("dt_max", 0.05),
+                                      adaptive=a.get("adaptive", True), adaptive_window=a.get("window", 3), save_every=a.get("k", 5),
+                                      progress_interval=10 ** 9, pause_on_interrupt=False, output_file=os.path.join(work, out),
+                                      include_screening=a.get("screening", False), field_units="mT", current_units="uA",
+                                      max_solve_retries=a.get("max_retries", 10), screening_tolerance=a.get("screening_tol", 1e-3))
+        kw = {}
+        cur = devices.balanced_currents(a.get("dev", "bar"), a.get("current", 0.0))
+        if cur is not None:
+            if a.get("current_ramp"):
+                T = a["current_ramp"]
+                kw["terminal_currents"] = lambda t, cur=cur, T=T: {k: v * min(1.0, t / T) for k, v in cur.items()}
+            else:
+                kw["terminal_currents"] = cur
+        if a.get("field_ramp"):
+            from tdgl.sources import ConstantField, LinearRamp
+
+            kw["applied_vector_potential"] = ConstantField(a.get("field", 0.0), field_units="mT", length_units="um") * LinearRamp(tmin=0, tmax=a["field_ramp"])
+        else:
+            kw["applied_vector_potential"] = a.get("field", 0.0)
+        if a.get("epsilon_ramp"):
+            T = a["epsilon_ramp"]
+
+            def eps_fn(r, *, t, T=T):
+                return 1.0 - 0.6 * min(1.0, t / T) * float(np.exp(-((r[0] - 0.5) ** 2 + r[1] ** 2)))
+            kw["disorder_epsilon"] = eps_fn
+        elif a.get("epsilon") is not None:
+            kw["disorder_epsilon"] = a["epsilon"]
+        scenario = a.get("scenario", "plain")
+        if scenario == "plain":
+            tdgl.solve(dev, opts("a.h5", a["solve_time"]), **kw)
+        elif scenario == "second-solve":
+            solver = TDGLSolver(dev, opts("a.h5", a["solve_time"]), **kw)
+            solver.solve()
+            phase["label"] = "second-solve"
+            solver.solve()
+        elif scenario == "seeded":
+            sol = tdgl.solve(dev, opts("a.h5", a["solve_time"]), **kw)
+            phase["label"] = "seeded"
+            tdgl.solve(dev, opts("b.h5", a.get("solve_time2", a["solve_time"])), seed_solution=sol, **kw)
+        else:
+            raise ValueError(scenario)
+    finally:
+        TDGLSolver.update = orig_update
+        TDGLSolver.solve_for_psi_squared = orig_sps
+        shutil.rmtree(work, ignore_errors=True)
+    # ---- abstraction
+    traces = []
+    stride = a.get("stride", 1)
+    first_of_phase = {}
+    for n, r in enumerate(records):
+        first_of_phase.setdefault(r["phase"], n)
+    for n, r in enumerate(records):
+        retried = len(r["refused"]) > 0
+        keep = (n % stride == 0) or retried or n in first_of_phase.values() or r["step"] <= 1
+        if not keep:
+            continue
+        label = f"{r['phase']}/step{r['step']}"
+        ev, worst = _site_obs(r["psi_n"], r["mu_n"], r["eps"], r["gamma"], r["u"], r["dt"], r["action"], r["p"], r["s"], False)
+        traces.append(dict(refused=False, ev=ev, family="insitu-update", level="update", label=label, retried=retried, iterations=r["iterations"],
+                           mu_max=float(np.abs(r["mu_n"]).max()), worst=worst, params=dict(run=a["label"], dt=r["dt"])))
+        A1 = r["first"]
+        if r["iterations"] > 1 or retried:
+            # the first answered attempt of the step: its arguments are psi^n, |psi^n|^2, mu^n themselves
+            ev, worst = _site_obs(A1["psi"], A1["mu"], A1["eps"], A1["gamma"], A1["u"], A1["dt"], A1["action"], A1["res"][0], A1["res"][1], False)
+            traces.append(dict(refused=False, ev=ev, family="insitu-first-answered-attempt", level="attempt", label=label, retried=retried,
+                               iterations=r["iterations"], mu_max=float(np.abs(A1["mu"]).max()), worst=worst, params=dict(run=a["label"], dt=A1["dt"])))
+        for R in r["refused"][:2]:
+            ev, _ = _site_obs(R["psi"], R["mu"], R["eps"], R["gamma"], R["u"], R["dt"], R["action"], None, None, True)
+            traces.append(dict(refused=True, ev=ev, family="insitu-refused", level="attempt", label=label, retried=True, iterations=r["iterations"],
+                               mu_max=float(np.abs(R["mu"]).max()), worst=0, params=dict(run=a["label"], dt=R["dt"])))
+    return dict(run=a["label"], traces=traces, n_updates=len(records), n_retried=sum(1 for r in records if r["refused"]),
+                phases=sorted(first_of_phase), max_iterations=max((r["iterations"] for r in records), default=0))
